@@ -527,7 +527,17 @@ impl Prop for C04T {
             }
             msgs.push(msg);
         }
-        let n = *IFACES[iface].ns.last().unwrap();
+        let mut n = *IFACES[iface].ns.last().unwrap();
+        if rng.chance(1, 10) {
+            // a message whose answers add up to exactly the size of process's response buffer
+            let small = *rng.pick(&[32usize, 64, 128]);
+            if let Some(fm) = super::common::response_fill_units(&mut rng, m, small) {
+                if fm.render().len() <= small {
+                    msgs = vec![fm];
+                    n = small;
+                }
+            }
+        }
         let mut sc = Scenario { prop: "C04".into(), seed, iface, cap: 0, n, msgs, ..Default::default() };
         let bytes = render(&sc.msgs).0;
         sc.scheds.push(gen::sched(&mut rng, &bytes));
@@ -585,6 +595,36 @@ impl Prop for C04T {
                 }
             }
         }
+        // (4) a fixed-capacity writer that has room for the responses and not one byte
+        // more: the stream is extended by one string query whose answer pads the total
+        // to exactly N bytes for the smallest compiled N that can hold it, and run into
+        // heapless::Vec<u8, N>; "has room" includes "exactly".
+        {
+            let l = want.len();
+            let ns = IFACES[sc.iface].ns;
+            if let Some(&cap_n) = ns.iter().find(|&&x| x >= l + 3 && x <= l + 3 + 40) {
+                let pad = cap_n - l - 3;
+                let mut ext = bytes.clone();
+                ext.extend_from_slice(b":ZOO:STR? \"");
+                ext.extend(std::iter::repeat(b'p').take(pad));
+                ext.extend_from_slice(b"\"\n");
+                let mut e1 = run_exec(sc, ext.clone(), vec![0, ext.len()], Sink::Sim(None), vec![]);
+                e1.n = cap_n;
+                let r1 = exec(&e1, st);
+                let mut e2 = run_exec(sc, ext.clone(), vec![0, ext.len()], Sink::HeaplessN, vec![]);
+                e2.n = cap_n;
+                let r2 = exec(&e2, st);
+                if !r1.crashed() && !r2.crashed() && !r1.unsupported && !r2.unsupported && r1.responses().len() == cap_n {
+                    st.bump("reach:writer_filled_exactly");
+                    if r2.responses() != r1.responses() || r2.errors() != r1.errors() {
+                        return v(
+                            "writer-dependent",
+                            format!("heapless::Vec<u8,{cap_n}> has exactly room for the {cap_n} response bytes but received [{}] (errors {:?}); the pass-through writer received [{}]", show(&r2.responses()), r2.errors().iter().map(|e| e.number()).collect::<Vec<_>>(), show(&r1.responses())),
+                        );
+                    }
+                }
+            }
+        }
         if failure {
             st.bump("reach:failed_unit_without_output");
         }
@@ -601,6 +641,6 @@ impl Prop for C04T {
         ]
     }
     fn probes(&self) -> Vec<&'static str> {
-        vec!["reach:responses_decoded", "reach:failed_unit_without_output", "reach:process_writer", "fired:suspension", "fired:handler_error"]
+        vec!["reach:responses_decoded", "reach:failed_unit_without_output", "reach:process_writer", "reach:writer_filled_exactly", "reach:response_exactly_fills_buffer", "fired:suspension", "fired:handler_error"]
     }
 }
